@@ -60,13 +60,20 @@ def tobin(off, k, cs):
         return err(e)
 
 
+def _from_binary(rdr, chk, key, variant):
+    """the reader with the MAC check on: asked for explicitly, or left to the default of the parameter"""
+    if chk and variant % 2:
+        return Bf3File.from_binary(rdr, {}, session_key=key) if variant % 4 == 1 else Bf3File.from_binary(rdr, session_key=key)
+    return Bf3File.from_binary(rdr, {}, chk, key)
+
+
 @op("bf3.frombin")
 def frombin(chk, k, pos, b):
     key, pos, data = unhx(k), int(pos), unhx(b)
     rdr = BytesReader(bytes(pos) + data, "test")
     rdr.read(pos)
     try:
-        return "ok " + show_comps(Bf3File.from_binary(rdr, {}, chk == "1", key).components)
+        return "ok " + show_comps(_from_binary(rdr, chk == "1", key, len(data) + key[0]).components)
     except Exception as e:
         return err(e)
 
@@ -172,6 +179,8 @@ def text_crlf(t):
 
 def read_text(chk, k, text, path):
     if not path:
+        if chk == "1" and len(text) % 2:
+            return Bf3File.read_file(io.StringIO(text), session_key=unhx(k))      # the MAC check is the default
         return Bf3File.read_file(io.StringIO(text), chk == "1", unhx(k))
     p = tmp_path()
     try:
@@ -321,7 +330,7 @@ def prop_c05(chk, k, pos, b):
     rdr = BytesReader(bytes(pos) + data, "test")
     rdr.read(pos)
     try:
-        got = Bf3File.from_binary(rdr, {}, chk == "1", key).components
+        got = _from_binary(rdr, chk == "1", key, len(data) + key[-1]).components
         gerr = None
     except Exception as e:
         got, gerr = None, type(e).__name__
